@@ -5,6 +5,7 @@
 #include <cstdint>
 #include <string>
 #include <set>
+#include <type_traits>
 #include <utility>
 #include <vector>
 
@@ -14,6 +15,13 @@ namespace lin {
 //   bool apply(const xmc::Event& e);   // is e (with its recorded result) legal now? if so, take the step
 //   uint64_t hash() const;             // hash of the abstract state (exact enough: collisions only cost soundness
 //                                      // of memoisation, so specs use injective encodings for their tiny states)
+// optional: `int variants(const Event&)` + `bool apply(const Event&, int variant)` for operations whose recorded
+// result does not determine their effect (e.g. erase(iterator): removed the element, or somebody else already had)
+template <class Spec, class = void>
+struct HasVariants : std::false_type {};
+template <class Spec>
+struct HasVariants<Spec, std::void_t<decltype(std::declval<Spec&>().variants(std::declval<const xmc::Event&>()))>> : std::true_type {};
+
 template <class Spec>
 struct Checker {
   std::vector<xmc::Event> ev;
@@ -28,9 +36,17 @@ struct Checker {
     for (int i = 0; i < n; i++) {
       if (done & (1u << i)) continue;
       if ((pred[i] & ~done) != 0) continue; // something that precedes i is not linearised yet
-      Spec t = s;
-      if (t.apply(ev[i])) {
-        if (dfs(done | (1u << i), t)) return true;
+      if constexpr (HasVariants<Spec>::value) {
+        int nv = s.variants(ev[i]);
+        for (int v = 0; v < nv; v++) {
+          Spec t = s;
+          if (t.apply(ev[i], v) && dfs(done | (1u << i), t)) return true;
+        }
+      } else {
+        Spec t = s;
+        if (t.apply(ev[i])) {
+          if (dfs(done | (1u << i), t)) return true;
+        }
       }
     }
     dead.insert(key);
